@@ -3,7 +3,7 @@
    with a group cardinality default to 0..1 and are counted by the group; otherwise 1..1 unless
    marked ?); identifiers are the safe-named feature names, [lift σ] reads a selection through them. *)
 From Coq Require Import List Bool String ZArith.
-From FM Require Import Base.Result Model.Ast Model.FM Model.Queries Model.Sem Format.Export
+From FM Require Import Base.Result Base.AstOp Model.Ast Model.FM Model.Queries Model.Sem Format.Export
      Proofs.C18Facts Proofs.C11Facts.
 Import ListNotations.
 Local Open Scope list_scope.
@@ -33,3 +33,19 @@ Print Assumptions C11_every_operator_translated.
 Theorem C11_constraint_meaning : forall n e σ, node_wf n = true -> clafer_node n = Ok e -> cx_eval (lift σ) e = evalb σ n.
 Proof. exact clafer_node_sound. Qed.
 Print Assumptions C11_constraint_meaning.
+
+(* non-vacuity: single children, an xor group, a [2..3] group, attributes, a name needing quotes *)
+Definition ex11 : fm :=
+  {| root := Feature (mk_info "R")
+       [ Relation 1 1 [Feature (mk_info "A") [Relation 1 1 [leaf "A1"; leaf "A2"]]];
+         Relation 0 1 [Feature (mk_info "two words") [Relation 2 3 [leaf "C"; leaf "D"; leaf "E"]]] ];
+     ctcs := [ {| c_name := "c1"; c_ast := bin XOR (term "A1") (un NOT (bin EQUIVALENCE (term "C") (term "two words"))) |} ] |}.
+Example C11_nonvacuous :
+  clafer_feature_ok (root ex11) = true /\ NoDup (names (root ex11))
+  /\ Forall (fun c => node_wf (c_ast c) = true) (ctcs ex11) /\ (exists d, clafer_write ex11 = Ok d).
+Proof.
+  split; [vm_compute; reflexivity|]. split.
+  - cbn. repeat constructor; cbn; intuition discriminate.
+  - split; [repeat constructor|]. vm_compute. eexists. reflexivity.
+Qed.
+Print Assumptions C11_nonvacuous.
